@@ -49,15 +49,23 @@ def lonlat_to_cell(lon_lat: LonLat, resolution: int) -> int:
     hilbert_resolution = 1 + resolution - FIRST_HILBERT_RESOLUTION
     samples: List[LonLat] = [lon_lat]
     N = 25
-    scale = 50 / (2 ** hilbert_resolution)
-    
+    scale = math.radians(50 / (2 ** hilbert_resolution))
+
+    # The spiral of sample points is laid out in the plane tangent to the sphere at the query point.
+    # Offsets in degrees of longitude/latitude collapse onto the meridian near the poles, so that the
+    # neighbouring cells to the east and west were never sampled there.
+    p = to_cartesian(from_lonlat(lon_lat))
+    ref = (0.0, 0.0, 1.0) if abs(p[2]) < 0.9 else (1.0, 0.0, 0.0)
+    e1 = (ref[1] * p[2] - ref[2] * p[1], ref[2] * p[0] - ref[0] * p[2], ref[0] * p[1] - ref[1] * p[0])
+    e1_norm = math.sqrt(e1[0] * e1[0] + e1[1] * e1[1] + e1[2] * e1[2])
+    e1 = (e1[0] / e1_norm, e1[1] / e1_norm, e1[2] / e1_norm)
+    e2 = (p[1] * e1[2] - p[2] * e1[1], p[2] * e1[0] - p[0] * e1[2], p[0] * e1[1] - p[1] * e1[0])
     for i in range(N):
         R = (i / N) * scale
-        coordinate = (
-            math.cos(i) * R + lon_lat[0],
-            math.sin(i) * R + lon_lat[1]
-        )
-        samples.append(coordinate)
+        a = math.cos(i) * R
+        b = math.sin(i) * R
+        offset_point = (p[0] + a * e1[0] + b * e2[0], p[1] + a * e1[1] + b * e2[1], p[2] + a * e1[2] + b * e2[2])
+        samples.append(to_lonlat(to_spherical(offset_point)))
 
     # Deduplicate estimates
     estimate_set = set()
